@@ -20,6 +20,7 @@ structure DState where
   doc : List DocApp := []           -- document being read (reversed)
   stash : List Doc := []            -- documents waiting for `dconstruct` (reversed)
   saved : Array Msg := #[]          -- messages set aside by `msave` (answers the scripted handler returns)
+  frozen : Option Dict := none      -- a copy of the dictionary kept by `freeze` while the current one goes on changing
 
 def Dia.Ty.idx : Ty → Nat
   | .address => 0 | .ipv4 => 1 | .ipv6 => 2 | .identity => 3 | .uri => 4 | .enumerated => 5 | .float32 => 6
@@ -642,6 +643,22 @@ def step (s : DState) (line : String) : DState × String :=
   | ["ctrace", evs, answers] => (s, ctraceLine evs answers)
   | ["msave"] => plain { s with saved := s.saved.push s.ms.msg, ms := { s.ms with msg := Msg.new 272 4 0 0 0 } } "ok"
   | ["mclear"] => plain { s with saved := #[] } "ok"
+  | ["env", _, _] => plain s "."                -- environment variables of the process: invisible to the model
+  | ["freeze"] => plain { s with frozen := some s.ms.dict } "."
+  | ["fbyname", n] =>
+    -- a by-name construction through the copy kept by `freeze`: it answers from what that copy held, whatever has been
+    -- declared in the current dictionary since
+    match pStr n, s.frozen with
+    | some n, some D =>
+      plain s (match D.getByName n with
+        | some d => "ok:" ++ toString d.code ++ ":" ++ (match d.vendor with | some v => toString v | none => "-") ++ ":" ++
+            bit d.m
+        | none => "err")
+    | _, _ => plain s "bad-op"
+  | ["sdecnt", n, evs] =>
+    match n.toNat?, parseREvs evs with
+    | some n, some evs => plain s (sdecLine s.cfg s.ms.dict.lookup n evs)
+    | _, _ => plain s "bad-op"
   | ["sdec", n, evs] =>
     match n.toNat?, parseREvs evs with
     | some n, some evs => plain s (sdecLine s.cfg s.ms.dict.lookup n evs)
